@@ -24,9 +24,11 @@ fn decode(body: &[u8], boundary: &str) -> std::result::Result<Vec<Part>, String>
         for line in head.split("\r\n") {
             let lower = line.to_ascii_lowercase();
             if lower.starts_with("content-disposition:") {
-                for item in line.split(';').skip(1) { let item = item.trim();
-                    if let Some(v) = item.strip_prefix("name=\"") { p.name = v.trim_end_matches('"').to_string(); }
-                    if let Some(v) = item.strip_prefix("filename=\"") { p.filename = Some(v.trim_end_matches('"').to_string()); } }
+                // parameters are quoted strings (names and filenames carry no quote, CR or LF): read each up to its closing quote,
+                // so that ';' and ',' inside a value belong to the value
+                let quoted = |key: &str| -> Option<String> { let k = format!("; {}=\"", key); let a = line.find(&k)? + k.len(); let b = line[a..].find('"')? + a; Some(line[a..b].to_string()) };
+                if let Some(v) = quoted("name") { p.name = v; }
+                p.filename = quoted("filename");
             } else if lower.starts_with("content-type:") { p.ctype = Some(line[13..].trim().to_string()); }
         }
         let dstart = hend + 4;
@@ -108,7 +110,7 @@ fn vp_native_multipart_roundtrip_body() {
         }
     }
     // larger forms, names and filenames with blanks / non-ASCII / '=', MIME types with parameters, empty and 1-byte files
-    let names = ["plain", "with space", "ünï-cødé", "a=b", "x"];
+    let names = ["plain", "with space", "ünï-cødé", "a=b", "x", "docs\\2024\\summary", "semi;colon, comma", "{curly} [square] <angle> 'single' `tick` ~!@#$%^&*()|", "e\u{301}combining \u{1F600}"];
     let mimes = [None, Some("text/plain; charset=utf-8"), Some("application/x-custom+json"), Some("application/x-demo; token=AbCdEF"), Some("image/svg+xml"), Some("multipart/mixed; boundary=InnerBOUNDARY42")];
     for ntext in [0usize, 1, 5] { for nfiles in [0usize, 1, 3, 4] { for variant in 0..4usize {
         let mut b = MultipartBuilder::new();
